@@ -205,7 +205,7 @@ Section C35.
     lstep p q g a = Some (q', g') ->
     hit_path (pc q) = true \/ (pc q = Locked /\ a = AChecked) ->
     pre_calls q' = pre_calls q /\ post_calls q' = post_calls q /\ execs q' = execs q /\
-    (hit_path (pc q') = true \/ pc q' = Locked \/ pc q' = Miss \/ pc q' = Done \/ pc q' = ExcHold).
+    (hit_path (pc q') = true \/ pc q' = Locked \/ pc q' = Miss \/ pc q' = Done \/ pc q' = ExcHold \/ pc q' = RelExc).
   Proof.
     intros H Hp. inv_lstep H; destruct Hp as [Hp|[Hp Ha]]; try discriminate. all: fin H. all: usepc; auto 10.
   Qed.
